@@ -11,6 +11,8 @@ pub(crate) mod ranges;
 mod sanity;
 mod side_metadata_tests;
 pub(crate) mod spec_defs;
+#[cfg(feature = "verif")]
+pub mod verif_hooks;
 
 pub use global::*;
 pub use layout::*;
